@@ -27,6 +27,12 @@ func (f *GitFilter) Clean(reader io.Reader, fileName string, fileSize int64, cb 
 	var tmp *os.File
 	var exts []*PointerExtension
 	if len(extensions) > 0 {
+		// A pointer (or an empty file) is passed through as it is,
+		// whether or not extensions are configured.
+		if reader, err = sniffPointer(reader); err != nil {
+			return nil, err
+		}
+
 		request := &pipeRequest{"clean", reader, fileName, extensions}
 
 		var response pipeResponse
@@ -74,21 +80,10 @@ func (f *GitFilter) copyToTemp(reader io.Reader, fileSize int64, cb tools.CopyCa
 		cb = nil
 	}
 
-	ptr, buf, err := DecodeFrom(reader)
-
-	by := make([]byte, blobSizeCutoff)
-	n, rerr := buf.Read(by)
-	by = by[:n]
-
-	if rerr != nil || (err == nil && len(by) < blobSizeCutoff) {
-		err = errors.NewCleanPointerError(ptr, by)
+	from, err := sniffPointer(reader)
+	if err != nil {
 		return
 	}
-
-	// Always tack on the original reader and continue the read from
-	// there: "fileSize" is the size of whatever sits at the path in the
-	// working tree, which need not be what Git is streaming to us.
-	from := io.MultiReader(bytes.NewReader(by), reader)
 
 	size, err = tools.CopyWithCallback(writer, from, fileSize, cb)
 
@@ -98,6 +93,26 @@ func (f *GitFilter) copyToTemp(reader io.Reader, fileSize int64, cb tools.CopyCa
 
 	oid = hex.EncodeToString(oidHash.Sum(nil))
 	return
+}
+
+// sniffPointer looks at the head of the input. If the input is a pointer (or
+// is empty), it returns a CleanPointerError carrying those bytes; otherwise it
+// returns a reader over the whole input.
+func sniffPointer(reader io.Reader) (io.Reader, error) {
+	ptr, buf, err := DecodeFrom(reader)
+
+	by := make([]byte, blobSizeCutoff)
+	n, rerr := buf.Read(by)
+	by = by[:n]
+
+	if rerr != nil || (err == nil && len(by) < blobSizeCutoff) {
+		return nil, errors.NewCleanPointerError(ptr, by)
+	}
+
+	// Always tack on the original reader and continue the read from
+	// there: "fileSize" is the size of whatever sits at the path in the
+	// working tree, which need not be what Git is streaming to us.
+	return io.MultiReader(bytes.NewReader(by), reader), nil
 }
 
 func (a *cleanedAsset) Teardown() error {
